@@ -1,4 +1,134 @@
-(* placeholder while the harness is built *)
-From Coq Require Import List NArith.
-From Pcfg Require Import TextFile Reader.
-Theorem C19_placeholder : 1 = 1. Proof. reflexivity. Qed.
+(* C19 - equivalent encodings of a training list train the same grammar.
+   Property theorems only (models: theories/Reader.v, Counters.v; proofs:
+   ReaderProofs.v, CollapseProofs.v, IoFacts.v).  cfgR dec encb prefix is the
+   reader with the code point classes probed from the running interpreter and
+   check_valid's rejected code points extracted from the source; dec / encb are
+   the codec oracles (strict decode of a $HEX payload, per-character
+   encodability).  `result ps n` = yields ps, num_passwords n, no encoding error.
+
+   The LAST theorems depend on a side condition on the current /repo sources
+   (every code point the line iteration splits on is rejected by check_valid);
+   they fail to check while R10 (U+2029) is in the tree. *)
+From Coq Require Import String Ascii.
+From Coq Require Import List NArith ZArith Bool Permutation.
+From Pcfg Require Import TextFile Counters Reader IoCorr TextFileProofs CountersProofs CollapseProofs ReaderProofs IoFacts.
+From PcfgGen Require Import Consts_gen.
+Import ListNotations.
+
+(* $HEX[...] of the encoded password reads to the password, whatever it
+   contains (given the codec round trip dec (enc p) = Some p) *)
+Theorem C19_hex : forall dec encb (enc : str -> list N) p,
+  dec (enc p) = Some p -> forallb is_byte (enc p) = true ->
+  forallb encb p = true -> accepted p = true ->
+  read_text (cfgR dec encb false) (hex_line enc p) = result [p] 1.
+Proof. exact hex_inst. Qed.
+
+(* count prefix + hex payload: leading blanks, any decimal digits, one space *)
+Theorem C19_prefix_hex : forall dec encb (enc : str -> list N) pad ds p,
+  blanks pad -> ds <> [] -> forallb ascii_digit ds = true ->
+  dec (enc p) = Some p -> forallb is_byte (enc p) = true -> forallb encb p = true -> accepted p = true ->
+  read_text (cfgR dec encb true) (count_line pad ds (hex_body (enc p)) ++ [LF]) =
+    result (repeat p (N.to_nat (digits_value ds))) (Z.of_N (digits_value ds)).
+Proof. exact prefix_hex_inst. Qed.
+
+(* what is skipped and what is counted *)
+Theorem C19_skips : forall dec encb,
+  let C := cfgR dec encb false in
+  (forall line p n, read_line C line = Yield p n -> accepted p = true /\ forallb encb p = true) /\
+  (check_valid_rejects_empty = true -> read_line C [LF] = Skip /\ read_line C [CR; LF] = Skip) /\
+  (forall body c, none_of is_crlf body = true -> is_hex_shaped body = false -> In c body ->
+                  memN c check_valid_rejected = true ->
+                  read_line C (body ++ [LF]) = if forallb encb body then Skip else SkipErr 1) /\
+  (forall body, none_of is_crlf body = true -> is_hex_shaped body = false -> forallb encb body = false ->
+                read_line C (body ++ [LF]) = SkipErr 1) /\
+  (forall body, none_of is_crlf body = true -> is_hex_shaped body = true ->
+                (fromhex (hex_payload body) = None \/ exists b, fromhex (hex_payload body) = Some b /\ dec b = None) ->
+                read_line C (body ++ [LF]) = SkipErr 1) /\
+  (forall ls, out (read_lines C ls) = flat_map (fun l => line_out (read_line C l)) ls /\
+              npw (read_lines C ls) = zsum (map (fun l => line_count (read_line C l)) ls) /\
+              nerr (read_lines C ls) = zsum (map (fun l => line_err (read_line C l)) ls)).
+Proof. exact skips_inst. Qed.
+
+(* TAB and the C0 controls are among the rejected code points of the source *)
+Theorem C19_tab_and_controls_rejected :
+  forallb (fun c => memN c check_valid_rejected) (map N.of_nat (seq 0 32)) = true.
+Proof. vm_compute. reflexivity. Qed.
+
+(* the three passes see the same sequence; N of pass 1 is its length when no
+   count prefix is negative *)
+Theorem C19_three_passes : forall dec encb prefix text,
+  let C := cfgR dec encb prefix in
+  let '(p1, p2, p3) := three_passes C text in
+  out p1 = out p2 /\ out p2 = out p3 /\
+  ((forall l, In l (lines_keep LB text) -> (0 <= line_count (read_line C l))%Z) ->
+   npw p1 = Z.of_nat (length (out p2)) /\ npw p1 = Z.of_nat (length (out p3))).
+Proof. exact three_passes_inst. Qed.
+
+(* same grammar: (1) files whose lines denote the same (password, count)
+   sequence read to the same sequence and the same N ... *)
+Theorem C19_same_sequence : forall C, r_lb C LF = true -> forall (ls : list (str * (str * Z))),
+  Forall (fun e => no_lb C (fst e) /\ read_line C (fst e ++ [LF]) = Yield (fst (snd e)) (snd (snd e))) ls ->
+  out (read_text C (flat_map (fun e => fst e ++ [LF]) ls)) =
+    flat_map (fun e => repeat (fst (snd e)) (Z.to_nat (snd (snd e)))) ls /\
+  npw (read_text C (flat_map (fun e => fst e ++ [LF]) ls)) = zsum (map (fun e => snd (snd e)) ls) /\
+  nerr (read_text C (flat_map (fun e => fst e ++ [LF]) ls)) = 0%Z.
+Proof. exact read_text_denotes. Qed.
+
+(* ... (2) collapsing repeats to counts in first-occurrence order leaves every
+   counter identical - keys, key order (hence tie order on disk) and counts -
+   whatever items a password contributes, and keeps N; (3) any other order
+   keeps every count (only the order of ties may change) *)
+Theorem C19_same_grammar :
+  (forall (f : str -> list str) (A : list str), tally (flat_map f (expand (collapse A))) = tally (flat_map f A)) /\
+  (forall A : list str, length (expand (collapse A)) = length A) /\
+  (forall A : list str, Permutation (expand (collapse A)) A) /\
+  (forall (f : str -> list str) (A B : list str) k n,
+     Permutation A B -> In (k, n) (tally (flat_map f A)) -> In (k, n) (tally (flat_map f B))).
+Proof.
+  exact (conj collapse_same_counter (conj collapse_same_length (conj expand_collapse_perm permuted_same_counts))).
+Qed.
+
+(* the faithful model refutes "a line holding a control character is skipped":
+   after a code point the codec splits on, the tail is read as a password *)
+Theorem C19_refuted_tail_after_linebreak :
+  out (read_text (cfgR (fun _ => None) (fun _ => true) false) [97; 98; 11; 99; 100; 10]%N) = [[99; 100]%N].
+Proof. exact refuted_tail_after_linebreak. Qed.
+
+(* with the published check_valid a plain line holding U+2029 reads as two passwords *)
+Theorem C19_refuted_plain_2029 :
+  let C := {| r_lb := LB; r_ws := WS; r_iws := IWS; r_dz := DZ; r_rej := rejected_2021; r_rej_empty := true;
+              r_dec := fun _ => None; r_encb := fun _ => true; r_prefix := false |} in
+  check_valid rejected_2021 true [97; 98; 8233; 99; 100]%N = true /\
+  out (read_text C (plain_line [97; 98; 8233; 99; 100]%N)) = [[97; 98; 8233]%N; [99; 100]%N].
+Proof. exact refuted_plain_2029. Qed.
+
+(* hypotheses satisfiable: a count-prefixed hex line read by the model *)
+Theorem C19_example :
+  read_text (cfgR (fun b => Some b) (fun _ => true) true)
+            (count_line [32; 32]%N [48; 51]%N (hex_body [32; 112; 32]%N) ++ [LF])
+  = result [[32; 112; 32]%N; [32; 112; 32]%N; [32; 112; 32]%N] 3.
+Proof. vm_compute. reflexivity. Qed.
+
+Print Assumptions C19_hex.
+Print Assumptions C19_prefix_hex.
+Print Assumptions C19_skips.
+Print Assumptions C19_same_grammar.
+
+(* ---------------------------------------------------------------- depends on the source's check_valid *)
+
+Theorem C19_linebreaks_rejected : linebreaks_rejected = true.
+Proof. vm_compute. reflexivity. Qed.
+
+(* a plain line reads to the password *)
+Theorem C19_plain : forall dec encb p,
+  accepted p = true -> is_hex_shaped p = false -> forallb encb p = true ->
+  read_text (cfgR dec encb false) (plain_line p) = result [p] 1.
+Proof. exact (plain_inst C19_linebreaks_rejected). Qed.
+
+(* count prefix + plain payload *)
+Theorem C19_prefix : forall dec encb pad ds p,
+  blanks pad -> ds <> [] -> forallb ascii_digit ds = true ->
+  accepted p = true -> is_hex_shaped p = false -> forallb encb p = true ->
+  read_text (cfgR dec encb true) (count_line pad ds p ++ [LF]) =
+    result (repeat p (N.to_nat (digits_value ds))) (Z.of_N (digits_value ds)).
+Proof. exact (prefix_plain_inst C19_linebreaks_rejected). Qed.
